@@ -112,7 +112,8 @@ def prune(root, keep):
 
 def build(repo, flavor, targets, quiet=True):
     repo = os.path.abspath(repo)
-    h = tree_hash(repo)
+    # keyed by content *and* location: dependency files record absolute paths of the tree they were built from
+    h = hashlib.sha256((tree_hash(repo) + "|" + repo).encode()).hexdigest()[:16]
     root = os.path.join(VERIF, "build")
     bdir = os.path.join(root, f"{h}-{flavor}")
     os.makedirs(bdir, exist_ok=True)
